@@ -1021,9 +1021,9 @@ bool ScriptVM::Process(ScriptContext& context, uinttime_t interruptTime)
             }
             catch (...)
             {
-                m_Stack.Pop();
-
                 if (!eventCalled) {
+                    // loadTop was not entered: consume the assigned value and the operands here
+                    m_Stack.Pop();
                     skipField();
                 }
 
